@@ -6,8 +6,11 @@
    Segments: direct = [address lookup] [open_connection under PEER_CONNECT_TIMEOUT] [send PeerInit];
    indirect = [register ticket waiter + CannotConnect waiter; send ConnectToPeer] [wait for pierce /
    CannotConnect under PEER_INDIRECT_CONNECT_TIMEOUT].  Cancellation lands in the segment that is
-   running at that time.  Ties (two things at exactly the same instant) are resolved by the event
-   loop's FIFO order and are NOT modelled: scripts with ties are excluded (premise [no_ties]).
+   running at that time.  The clean-up constructs of the coroutines (except CancelledError / try-finally,
+   see the flags of PortGen) are read from the source by the translator: the model describes the code
+   with or without each of them, the theorems of Props.v need them present.
+   TIES in race mode (both attempts succeed at the same instant): which of the three possible schedules the
+   event loop produces is a component of the script ([sched]); the theorems hold for each.
 
    Definitions only; executable. *)
 From Coq Require Import ZArith List Bool.
@@ -22,8 +25,14 @@ Inductive addr := AGiven | AReply | ANoAddr | ANoReply | ASendFail.
 Inductive dres := DOk | DRefused | DHang | DInitFail.
 Inductive ires := IPierce | ICannot | INothing | ISendFail.
 
+(* race mode, both attempts succeed at the same instant: both tasks are in `done` of one asyncio.wait | the direct
+   one is seen first (the indirect attempt is still waiting and gets cancelled) | the indirect one is seen first
+   (the direct attempt is cancelled inside the drain of its PeerInit write, connected but not initialised) *)
+Inductive tie_sched := BothDone | DirectFirst | IndirectFirst.
+
 Record script := mkS {
-  md : mode; ad : addr; ad_delay : Z; dr : dres; d_delay : Z; ir : ires; i_delay : Z; cancel : option Z }.
+  md : mode; ad : addr; ad_delay : Z; dr : dres; d_delay : Z; ir : ires; i_delay : Z; cancel : option Z;
+  sched : tie_sched }.
 
 Inductive aout := Succ (t : Z) | Fail (t : Z) | Never.
 
@@ -79,7 +88,13 @@ Definition indirect (s : script) (t0 : Z) : aout :=
 (* the indirect attempt ended by itself through the exception of the ConnectToPeer write: the lines that
    cancel the waiters are never reached *)
 Definition ind_fail_residue (s : script) : bool :=
-  match ir s with ISendFail => server_alive s | _ => false end.
+  match ir s with ISendFail => server_alive s && negb INDIRECT_CLEANUP_ALWAYS | _ => false end.
+
+(* a cancelled indirect attempt (it always is inside its wait) leaves its two waiters unless the clean-up is in a finally *)
+Definition ind_cancel_residue : bool := negb INDIRECT_CLEANUP_ALWAYS.
+(* a direct attempt cancelled inside open_connection leaves its CONNECTING object unless connect() or the attempt closes it *)
+Definition dir_cancel_residue (connecting : bool) : bool :=
+  connecting && negb (CONNECT_CLOSES_ON_CANCEL || ATTEMPT_CLOSES_ON_CANCEL).
 
 Inductive who := WDirect | WIndirect.
 Inductive outc := ORet (w : who) | ORaise | OCancelled | OHang.
@@ -89,37 +104,59 @@ Record final := mkF {
   at_time : option Z;
   r_connecting : bool;     (* a non-returned connection object left in Network.peer_connections, state CONNECTING *)
   waiters : bool;          (* the ticket waiter and the CannotConnect waiter are still registered *)
-  orphans : bool           (* attempt tasks still running although the request is over *)
+  orphans : bool;          (* attempt tasks still running although the request is over *)
+  r_open : bool;           (* a non-returned OPEN connection left registered (second success / loser cancelled in its drain) *)
+  either : bool            (* tie with both tasks done: which of the two connections is returned is the set order of `done` *)
 }.
+
+Definition F (o : outc) (t : option Z) (conn wait orph : bool) : final := mkF o t conn wait orph false false.
 
 Definition fallback_nc (s : script) : final :=
   match direct s 0 with
-  | Succ t => mkF (ORet WDirect) (Some t) false false false
-  | Never => mkF OHang None false false false
+  | Succ t => F (ORet WDirect) (Some t) false false false
+  | Never => F OHang None false false false
   | Fail t =>
       match indirect s t with
-      | Succ t' => mkF (ORet WIndirect) (Some t') false false false
-      | Fail t' => mkF ORaise (Some t') false (ind_fail_residue s) false
-      | Never => mkF OHang None false false false
+      | Succ t' => F (ORet WIndirect) (Some t') false false false
+      | Fail t' => F ORaise (Some t') false (ind_fail_residue s) false
+      | Never => F OHang None false false false
       end
   end.
+
+(* what a losing attempt leaves when the winner is there at time t *)
+Definition loser_indirect : bool := if RACE_CANCELS_LOSER then ind_cancel_residue else false.
+Definition loser_direct (s : script) (t : Z) : bool :=
+  if RACE_CANCELS_LOSER then dir_cancel_residue (d_connecting s 0 t) else false.
+(* a loser that is not cancelled keeps running after the request returned *)
+Definition loser_orphan : bool := negb RACE_CANCELS_LOSER.
 
 Definition race_nc (s : script) : final :=
   let d := direct s 0 in let i := indirect s 0 in
   match d, i with
   | Succ td, Succ ti =>
-      if td <? ti then mkF (ORet WDirect) (Some td) false true false            (* indirect cancelled while waiting *)
-      else mkF (ORet WIndirect) (Some ti) (d_connecting s 0 ti) false false     (* direct cancelled where it is *)
+      if td <? ti then F (ORet WDirect) (Some td) false loser_indirect loser_orphan
+      else if ti <? td then F (ORet WIndirect) (Some ti) (loser_direct s ti) false loser_orphan
+      else match sched s with
+           | BothDone => mkF (ORet WIndirect) (Some ti) false false false (negb RACE_DISCONNECTS_SECOND) true
+           | DirectFirst =>
+               (* the pierce connection may already have been accepted when the indirect attempt is cancelled, or arrive in
+                  the iteration before the cancelled waiter is removed: it must be closed in both cases *)
+               mkF (ORet WDirect) (Some td) false loser_indirect loser_orphan
+                   (RACE_CANCELS_LOSER && negb (INDIRECT_CLOSES_ARRIVED_ON_CANCEL && PIERCE_IGNORES_DONE_WAITER)) false
+           | IndirectFirst =>
+               mkF (ORet WIndirect) (Some ti) false false loser_orphan
+                   (RACE_CANCELS_LOSER && negb ATTEMPT_CLOSES_ON_CANCEL) false
+           end
   | Succ td, Fail ti =>
-      if ti <? td then mkF (ORet WDirect) (Some td) false (ind_fail_residue s) false
-      else mkF (ORet WDirect) (Some td) false true false
+      if ti <? td then F (ORet WDirect) (Some td) false (ind_fail_residue s) false
+      else F (ORet WDirect) (Some td) false loser_indirect loser_orphan
   | Fail td, Succ ti =>
-      if td <? ti then mkF (ORet WIndirect) (Some ti) false false false
-      else mkF (ORet WIndirect) (Some ti) (d_connecting s 0 ti) false false
-  | Fail td, Fail ti => mkF ORaise (Some (Z.max td ti)) false (ind_fail_residue s) false
-  | Never, Succ ti => mkF (ORet WIndirect) (Some ti) false false false
-  | Never, Fail ti => mkF OHang None false (ind_fail_residue s) false
-  | _, Never => mkF OHang None false false false
+      if td <? ti then F (ORet WIndirect) (Some ti) false false false
+      else F (ORet WIndirect) (Some ti) (loser_direct s ti) false loser_orphan
+  | Fail td, Fail ti => F ORaise (Some (Z.max td ti)) false (ind_fail_residue s) false
+  | Never, Succ ti => F (ORet WIndirect) (Some ti) false false loser_orphan
+  | Never, Fail ti => F OHang None false (ind_fail_residue s) false
+  | _, Never => F OHang None false false false
   end.
 
 Definition no_cancel (s : script) : final :=
@@ -130,13 +167,17 @@ Definition cancelled_at (s : script) (x : Z) : final :=
   match md s with
   | Fallback =>
       let d := direct s 0 in
-      if running_at d x then mkF OCancelled (Some x) (d_connecting s 0 x) false false
+      if running_at d x then F OCancelled (Some x) (dir_cancel_residue (d_connecting s 0 x)) false false
       else (* direct failed earlier (had it succeeded the request would be over): the indirect attempt is waiting *)
-        mkF OCancelled (Some x) false true false
+        F OCancelled (Some x) false ind_cancel_residue false
   | Race =>
-      (* asyncio.wait does not cancel what it waits for: both attempt tasks keep running *)
       let d := direct s 0 in let i := indirect s 0 in
-      mkF OCancelled (Some x) (running_at d x && d_connecting s 0 x)
+      if RACE_CANCELS_ON_CANCEL then
+        F OCancelled (Some x) (running_at d x && dir_cancel_residue (d_connecting s 0 x))
+          ((running_at i x && ind_cancel_residue) || ind_fail_residue s) false
+      else
+        (* asyncio.wait does not cancel what it waits for: both attempt tasks keep running *)
+        F OCancelled (Some x) (running_at d x && d_connecting s 0 x)
           (running_at i x || ind_fail_residue s) (running_at d x || running_at i x)
   end.
 
@@ -158,7 +199,7 @@ Definition direct_ok (s : script) : bool :=
 Definition indirect_ok (s : script) : bool :=
   match ir s with IPierce => true | _ => false end && (i_delay s <? PEER_INDIRECT_CONNECT_TIMEOUT) && server_alive s.
 Definition returns (f : final) : bool := match out f with ORet _ => true | _ => false end.
-Definition residue_free (f : final) : bool := negb (r_connecting f) && negb (waiters f) && negb (orphans f).
+Definition residue_free (f : final) : bool := negb (r_connecting f) && negb (waiters f) && negb (orphans f) && negb (r_open f).
 
 Definition delays_ok (s : script) : Prop := 0 <= ad_delay s /\ 0 <= d_delay s /\ 0 <= i_delay s.
 
@@ -169,5 +210,7 @@ Inductive rout := PierceSent | CannotConnectReported | NothingReported.
 Definition responder (server_open : bool) (c : rconn) (w : rsend) : rout :=
   match c, w with
   | RcOk, RsOk => PierceSent
-  | _, _ => if server_open then CannotConnectReported else NothingReported  (* send_message on a closing connection is silent *)
+  | RcOk, RsFail =>    (* the PeerPierceFirewall write fails: ConnectionWriteError, reported only if the handler covers it *)
+      if server_open && RESPONDER_REPORTS_WRITE_FAILURE then CannotConnectReported else NothingReported
+  | RcFail, _ => if server_open then CannotConnectReported else NothingReported  (* send_message on a closing connection is silent *)
   end.
